@@ -26,18 +26,18 @@ class ProxyFixMiddleware:
             scheme: Optional[str] = None
             host: Optional[str] = None
 
-            if (
-                self.mode == "modern"
-                and (value := _get_trusted_value(b"forwarded", headers, self.trusted_hops))
-                is not None
-            ):
-                for part in value.split(";"):
-                    if part.startswith("for="):
-                        client = part[4:].strip()
-                    elif part.startswith("host="):
-                        host = part[5:].strip()
-                    elif part.startswith("proto="):
-                        scheme = part[6:].strip()
+            if self.mode == "modern":
+                # Only the Forwarded header is trusted, the legacy
+                # headers could have been set by the client.
+                value = _get_trusted_value(b"forwarded", headers, self.trusted_hops)
+                if value is not None:
+                    for part in value.split(";"):
+                        if part.startswith("for="):
+                            client = part[4:].strip()
+                        elif part.startswith("host="):
+                            host = part[5:].strip()
+                        elif part.startswith("proto="):
+                            scheme = part[6:].strip()
 
             else:
                 client = _get_trusted_value(b"x-forwarded-for", headers, self.trusted_hops)
